@@ -151,6 +151,11 @@ def _suite_templates(alias):
                              ("var_9 = var_1.deposit(var_0)", "var_9", int)], {1: [L("var_1.log", 0)]}),
         "asserted-result": ([("var_0 = 7", "var_0", int), (f"var_1 = {alias}.Account(var_0)", "var_1", None),
                              ("var_4 = var_1.deposit(var_0)", "var_4", int)], {2: [O("var_4", 14)]}),
+        # an unused literal statement that carries an oracle about another object (the assertion observer attaches what it
+        # sees first after a statement to that statement)
+        "literal-with-foreign-oracle": ([("var_0 = 10", "var_0", int), (f"var_1 = {alias}.Account(var_0)", "var_1", None), ("var_7 = 5", "var_7", int),
+                                         ("var_8 = 'unused'", "var_8", str)],
+                                        {2: [O("var_1.balance", 10)], 3: [L("var_1.log", 0), O("var_8", "unused")]}),
         "no-assertions": ([("var_0 = 7", "var_0", int), (f"var_1 = {alias}.Account(var_0)", "var_1", None),
                            ("var_6 = var_1.deposit(var_0)", "var_6", int)], {}),
     }
@@ -191,13 +196,15 @@ def _check_suite_export(part: Part, tier, seed):
                         suite.add_test_case_chromosome(tcc.TestCaseChromosome(t))
                     if postprocess:
                         suite.accept(pp.AssertionMinimization())
-                        suite.accept(pp.TestCasePostProcessor([pp.UnusedStatementsTestCaseVisitor()]))
-                    # what is attached to the test cases when they are handed to the writer (per statement source)
+                    # what is attached to the test cases after assertion generation and minimization (per statement source);
+                    # the post-processing below and the export may strip bindings, never an oracle
                     attached = []
                     for ch in suite.test_case_chromosomes:
                         attached.append([(norm(cst.Module(body=[s.node]).code).split("=", 1)[-1].strip(),
                                           [norm(cst.Module(body=[assertion_to_cst(a)]).code) for a in s.assertions])
                                          for s in ch.test_case.statements()])
+                    if postprocess:
+                        suite.accept(pp.TestCasePostProcessor([pp.UnusedStatementsTestCaseVisitor()]))
                     out = TestSuiteWriter().write(suite, _BANK, tmp / f"out{k}", project_path=str(tmp), format_with_black=False)
                     funcs = []
                     for node in _ast.parse(out.read_text(encoding="utf-8")).body:
